@@ -345,6 +345,32 @@ def ofDecoded (m : DecApi.Msg) : Message :=
          value := d.value, isExpanded := d.expanded } : Field)),
     devFields := m.devs.map (fun d => ({ devIdx := d.idx, num := d.num, value := d.value } : DevField)) }
 
+/-- the decoded sequences handed back to the encoder: one `proto.FIT` per sequence, under the header members the decoder
+returned, the messages as they are -/
+def backFiles (fits : List DecApi.Fit) : List FileIn :=
+  fits.map fun f => { hsize := f.hdr.size, hpv := f.hdr.protoVer, hprofile := f.hdr.profileVer, msgs := f.msgs.map ofDecoded }
+
+/-- **what message validation retains of decoded messages** (the reading of "those same messages" in the last sentence of
+the property), stated without the validator's loops: every message with every field and developer field AS IT IS, in
+order, except the invalid-valued ones when the validator omits invalid values (`omitInv`, the default) — a field whose
+value is invalid for its base type (`Value.Valid`: the invalid sentinel, an array of sentinels, an empty string, …), a
+developer field whose value is invalid for the base type of the FIRST field description of (developer data index, number)
+among the retained `field_description` messages so far (the message itself included). Nothing is restored or converted. -/
+def retained (omitInv : Bool) : Validator.State → List DecApi.Msg → List Message
+  | _, [] => []
+  | vst, m :: ms =>
+    let km := ofDecoded m
+    let fs := km.fields.filter fun f =>
+      match f.base with
+      | some b => !f.isExpanded && (!omitInv || valid f.value b.baseType)
+      | none => false
+    let vst' := Validator.remember vst m.num fs
+    let ds := km.devFields.filter fun d =>
+      match Validator.lookupFd vst'.fds d with
+      | some fd => !omitInv || valid d.value fd.btId
+      | none => true
+    { km with fields := fs, devFields := ds } :: retained omitInv vst' ms
+
 /-- a validated message taken literally: numbers, base types of the `FieldBase`s, values as they are -/
 def literal (m : Message) : NMsg :=
   ⟨m.num, m.fields.filterMap (fun f => f.base.map fun b => ⟨b.num, b.baseType, f.value⟩),
